@@ -40,6 +40,8 @@ type Analyzer struct {
 	inprog map[*ssa.Function]bool
 	hitRec map[*ssa.Function]bool
 	states map[*ssa.Function]*fnState
+	mustMemo  map[*ssa.Function]PathSet
+	mustBusy  map[*ssa.Function]bool
 	aliasMemo map[string][]Hazard
 	aliasBusy map[string]bool
 	// AliasSafeLeaves: callees assumed alias-safe (not analysed from source)
@@ -50,7 +52,7 @@ type Analyzer struct {
 
 func NewAnalyzer(p *core.Prog) *Analyzer {
 	a := &Analyzer{P: p, memo: map[*ssa.Function]*Summary{}, inprog: map[*ssa.Function]bool{}, hitRec: map[*ssa.Function]bool{},
-		states: map[*ssa.Function]*fnState{}, aliasMemo: map[string][]Hazard{}, aliasBusy: map[string]bool{}, AliasSafeLeaves: map[string]bool{}}
+		states: map[*ssa.Function]*fnState{}, mustMemo: map[*ssa.Function]PathSet{}, mustBusy: map[*ssa.Function]bool{}, aliasMemo: map[string][]Hazard{}, aliasBusy: map[string]bool{}, AliasSafeLeaves: map[string]bool{}}
 	return a
 }
 
